@@ -80,6 +80,11 @@ static inline void env_new_type(const NDT* base, size_t bitCount, int divisor, c
   else { g_new_type.m_precision = NDT_calcPrecision(divisor); g_new_type.m_firstBit = 0; }
   *derived = &g_new_type;
 }
+static inline void env_new_type_range(const NDT* base, unsigned min, unsigned max, unsigned inc, const NDT** derived) {
+  g_new_calls = g_new_calls + 1;
+  g_new_type = *base; g_new_type.m_minValue = min; g_new_type.m_maxValue = max; g_new_type.m_incValue = inc; g_new_type.m_baseType = base->m_baseType ? base->m_baseType : base;
+  *derived = &g_new_type;
+}
 #include "gen_protos.h"
 #include "ss_contracts.h"
 
@@ -430,6 +435,25 @@ void h_derive(void) {
     __CPROVER_assert(out != NULL && (long)out->m_divisor == combined, "[C07] the derived type has the product of both divisors");
     __CPROVER_assert(spec_ndt_valid(out), "[C05,C07] a derived type is a valid type shape again");
     if (out != &t) { CANARY("new type"); }
+  }
+}
+
+/* a field definition with its own value range derives a type with that range: both bounds must be raw values the base type accepts */
+void h_derive_range(void) {
+  NDT t = nondet_NDT(); unsigned min = nondet_uint(), max = nondet_uint(), inc = nondet_uint(); const NDT* out = NULL; g_new_calls = 0;
+  __CPROVER_assume(spec_ndt_valid(&t) && !NDT_FLAG(&t, EXP));
+  /* the bounds are raw values produced by parseInput of the same type (DataField::create), i.e. within the width (parseInput postcondition) */
+  __CPROVER_assume(t.m_bitCount >= 32 || (min < (1u << t.m_bitCount) && max < (1u << t.m_bitCount)));
+  result_t r = NDT_derive_range(&t, min, max, inc, &out);
+  result_t rmin = NDT_checkValueRange(&t, min, NULL), rmax = NDT_checkValueRange(&t, max, NULL);
+  if (t.m_bitCount < 8) { __CPROVER_assert(r == RESULT_ERR_INVALID_ARG, "[C07] a bit type has no value range of its own"); }
+  else if (min == t.m_minValue && max == t.m_maxValue && (inc == 0 || inc == t.m_incValue)) { __CPROVER_assert(r == RESULT_OK && out == &t, "[C07] an unchanged range keeps the type"); }
+  else if (rmin != RESULT_OK || rmax != RESULT_OK) { __CPROVER_assert(r == RESULT_ERR_OUT_OF_RANGE && g_new_calls == 0, "[C07] a range bound the base type does not accept (beyond its width or its own range, or its replacement value) is rejected"); CANARY("bound rejected"); }
+  else {
+    __CPROVER_assert(r == RESULT_OK && out != NULL && out->m_minValue == min && out->m_maxValue == max && out->m_incValue == inc, "[C07] the derived type carries the requested range");
+    __CPROVER_assert(out->m_bitCount == t.m_bitCount && out->m_flags == t.m_flags && out->m_divisor == t.m_divisor && out->m_replacement == t.m_replacement && out->m_firstBit == t.m_firstBit, "[C07] width, flags, divisor and replacement value are those of the base type");
+    __CPROVER_assert(spec_ndt_valid(out), "[C05,C07] a derived type is a valid type shape again");
+    CANARY("range type");
   }
 }
 
